@@ -32,6 +32,7 @@ Record trun := mkrun {
 
 Record ccase := mkcase {
   c_mode : N;                                   (* 0 pregel (batch), 1 dag (batch), 2 eager (dag) *)
+  c_steps : nat;                                (* > 0: pregel graph that may have cycles, run with this step limit *)
   c_graph : graph;                              (* [] = outside the order-side models (batch + branches) *)
   c_brs : list br;                              (* branches (eager mode only: Model/EagerSkip.v) *)
   c_obs : list (robs * exec_log);
@@ -54,10 +55,14 @@ Definition log_eqb (a b : exec_log) : bool :=
 Definition fuel_of (g : graph) : nat := 2 * List.length g + 12.
 
 (* batch modes: the identity completion order *)
+(* the step limit: the one the case was compiled with (cyclic pregel graphs), else more than enough *)
+Definition fuel_case (c : ccase) : nat :=
+  match c_steps c with O => fuel_of (c_graph c) | n => n end.
+
 Definition predict (c : ccase) : outcome * exec_log :=
   match c_mode c with
-  | 0%N => batch (fun l => l) Pregel (c_graph c) (fuel_of (c_graph c))
-  | _ => batch (fun l => l) Dag (c_graph c) (fuel_of (c_graph c))
+  | 0%N => batch (fun l => l) Pregel (c_graph c) (fuel_case c)
+  | _ => batch (fun l => l) Dag (c_graph c) (fuel_case c)
   end.
 
 (* a node that fails and does not feed END: the only graphs on which the outcome of an eager run
@@ -103,6 +108,7 @@ Definition obs_ok (c : ccase) (o : robs * exec_log) : bool :=
     match fst o, out with
     | RVal v, ODone v' => val_eqb v v' && log_eqb (snd o) log
     | RErr, OFail => log_eqb (snd o) log
+    | RErr, OFuel => negb (Nat.eqb (c_steps c) 0) && log_eqb (snd o) log   (* ErrExceedMaxSteps *)
     | _, _ => false
     end
   else eager_obs_ok (c_graph c) (c_brs c) o.
@@ -162,6 +168,7 @@ Definition trace_ok (c : ccase) (r : trun) : bool :=
   | None => false
   end &&
   (if is_nil (c_graph c) then true
+   else if negb (Nat.eqb (c_steps c) 0) then true      (* a node may run twice: task keys are not node keys *)
    else if is_nil (c_brs c) then conf_ok c r
    else if is_batch c then true else eager_run_ok (c_graph c) (c_brs c) r).
 
